@@ -138,8 +138,24 @@ func runC05(r *Run) error {
 		// then records the heads of the partial log: an observation outside this property);
 		// local writes are, and everything acknowledged so far must still be recovered later.
 		partial := false
+		// the first two histories begin with a fixed script: A writes, B writes (concurrently),
+		// A merges B's branch (two heads), A restarts with a limit that cuts one of the branches
+		// out of the log, A writes on top of what is left; the rest is random as everywhere
+		var script []int
+		if hi < 2 {
+			script = []int{0, 0, 5, 7, 10, 0}
+			if steps < len(script)+2 {
+				steps = len(script) + 2
+			}
+			r.Count("scripted-prefix:concurrent-heads-then-limited-restart-then-write")
+		}
 		for st := 0; st < steps; st++ {
-			switch c := r.Rng.Intn(12); {
+			c := r.Rng.Intn(12)
+			forced := st < len(script)
+			if forced {
+				c = script[st]
+			}
+			switch {
 			case c >= 10:
 				if err := stA.Close(); err != nil {
 					return fmt.Errorf("close A: %w", err)
@@ -151,6 +167,9 @@ func runC05(r *Run) error {
 				stA = st2
 				s.Stores[0] = st2
 				amount := []int{-1, -1, 1, 2, 3}[r.Rng.Intn(5)]
+				if forced {
+					amount = 1 + hi
+				}
 				if err := stA.Load(ctx, amount); err != nil {
 					return fmt.Errorf("load A: %w", err)
 				}
@@ -159,7 +178,7 @@ func runC05(r *Run) error {
 				}
 				partial = amount > 0
 				r.Count(fmt.Sprintf("restart-A:limited=%v", amount > 0))
-				if partial && r.Rng.Intn(3) > 0 {
+				if partial && (r.Rng.Intn(3) > 0 || forced) {
 					// a local write on top of the partially loaded log
 					before := u.Note(stA.OpLog().Values().Slice())
 					if err := writeOp(r, s, stA, st+500); err != nil {
@@ -188,6 +207,9 @@ func runC05(r *Run) error {
 				r.Count("write-A")
 			case c < 7:
 				src := 1 + r.Rng.Intn(2)
+				if forced {
+					src = 1
+				}
 				if err := writeOp(r, s, s.Stores[src], st+1000); err != nil {
 					return err
 				}
@@ -199,6 +221,9 @@ func runC05(r *Run) error {
 				}
 				before := u.Note(stA.OpLog().Values().Slice())
 				src := 1 + r.Rng.Intn(2)
+				if forced {
+					src = 1
+				}
 				u.Note(s.Stores[src].OpLog().Values().Slice())
 				if err := s.SyncFrom(0, src); err != nil {
 					return err
